@@ -22,6 +22,15 @@ Share(c, sh) == [x \in DOMAIN c \cup {"share"} |-> IF x = "share" THEN sh ELSE c
 D2 == {Share(Case("D2", "wrapped", <<F("a", Prim("Integer"), 0, 1)>>, <<Leaf("5")>>, <<Seg>>, <<ObjV("Seg", <<Pv("1", "2"), e, via>>)>>), sh) :
           e \in {Pv("1", "2"), Pv("3", "4")}, via \in {Nil, SeqV(<<Pv("1", "2"), Pv("3", "4"), Pv("1", "2")>>), SeqV(<<Pv("3", "4"), Pv("3", "4")>>)}, sh \in BOOLEAN}
       \cup {Share(Case("D2", "wrapped", <<F("a", Prim("Integer"), 0, 1)>>, <<Leaf("5")>>, <<Arr(P2)>>, <<SeqV(<<Pv("1", "2"), Pv("3", "4"), Pv("1", "2")>>)>>), sh) : sh \in BOOLEAN}
+\* D3: a class with a member that is EXCLUDED from the documents (exc=True: a secret kept server-side) between members that travel;
+\* the client sends the others (by name, or positionally: the list of the others), user code returns an instance with the secret set
+Fx(n, t, min, max) == [n |-> n, t |-> t, min |-> min, max |-> max, exc |-> TRUE]
+Acct == Obj("Account", "tns", <<F("user", Prim("Unicode"), 0, 1), Fx("secret", Prim("Unicode"), 0, 1), F("level", Prim("Integer"), 0, 1), F("note", Prim("Unicode"), 0, 1)>>)
+AcctIn(u, l, n) == ObjV("Account", <<u, Nil, l, n>>)
+AcctOut(u, l, n) == ObjV("Account", <<u, Leaf("opensesame"), l, n>>)
+D3 == {Case("D3", "wrapped", <<F("a", Acct, 0, 1)>>, <<AcctIn(Leaf(u), Leaf("5"), n)>>, <<Acct>>, <<AcctOut(Leaf(u), Leaf("5"), n)>>) : u \in {"ann", "bob"}, n \in {Leaf("hello"), Nil}}
+      \cup {Case("D3", "wrapped", <<F("xs", Arr(Acct), 0, 1), F("k", Prim("Integer"), 0, 1)>>, <<SeqV(<<AcctIn(Leaf("ann"), Leaf("5"), Leaf("hello")), AcctIn(Leaf("bob"), Leaf("7"), Leaf("x"))>>), Leaf("5")>>,
+                  <<Arr(Acct)>>, <<SeqV(<<AcctOut(Leaf("bob"), Leaf("7"), Leaf("x"))>>)>>)}
 \* (bare styles and SOAP headers have no counterpart in dict documents)
-DictCases == {Share(c, FALSE) : c \in T1 \cup T2 \cup T3 \cup T4 \cup T5 \cup T6 \cup T6b \cup T7 \cup D1} \cup D2
+DictCases == {Share(c, FALSE) : c \in T1 \cup T2 \cup T3 \cup T4 \cup T5 \cup T6 \cup T6b \cup T7 \cup D1 \cup D3} \cup D2
 =============================================================================
